@@ -26,6 +26,7 @@ import (
 	"fmt"
 	"io"
 	"math/big"
+	"net"
 	"os"
 	"path/filepath"
 	"runtime"
@@ -55,6 +56,7 @@ type vtCase struct {
 	Rep       int    `json:"rep"`
 	Cfg       vtCfg  `json:"cfg"`
 	Cred      vtCred `json:"cred"`
+	After     string `json:"after"` // intact | caRemoved: what happens to the files once the endpoint has started
 }
 
 // vtEnd is what one end of the connection observed.
@@ -73,6 +75,7 @@ type vtRec struct {
 	Rep        int    `json:"rep"`
 	Cfg        vtCfg  `json:"cfg"`
 	Cred       vtCred `json:"cred"`
+	After      string `json:"after"`
 	Startup    string `json:"startup"` // ready | reject | disabled
 	StartupErr string `json:"startupErr"`
 	Proxy      vtEnd  `json:"proxy"`
@@ -200,11 +203,49 @@ func vtNewPKI(dir string) *vtPKI {
 	p.peer["sameNameCA"], _, _ = vtLeaf(&caA2, vtPeerName, from, to, both)
 	p.peer["expired"], _, _ = vtLeaf(&caA, vtPeerName, now.Add(-48*time.Hour), now.Add(-time.Hour), both)
 	p.peer["wrongEKU"], _, _ = vtLeaf(&caA, vtPeerName, from, to, []x509.ExtKeyUsage{x509.ExtKeyUsageCodeSigning})
+	// peers that ship more than their leaf: withChain appends further certificates to what is presented
+	withChain := func(c *tls.Certificate, more ...[]byte) *tls.Certificate {
+		cc := *c
+		cc.Certificate = append(append([][]byte{}, c.Certificate...), more...)
+		return &cc
+	}
+	vc, _, _ := vtLeaf(&caA, vtPeerName, from, to, both)
+	p.peer["validchain"] = withChain(vc, caA.cert.Raw)
+	oc, _, _ := vtLeaf(&caB, vtPeerName, from, to, both)
+	p.peer["otherCAchain"] = withChain(oc, caB.cert.Raw) // brings its own "trust anchor" along
+	ss, _, _ := vtLeaf(nil, vtPeerName, from, to, both)
+	p.peer["selfsigned2"] = withChain(ss, ss.Certificate[0]) // the self-signed leaf once more, as its own issuer
 
 	p.bundles["caA"] = write("caA.pem", pem.EncodeToMemory(&pem.Block{Type: "CERTIFICATE", Bytes: caA.cert.Raw}))
 	p.bundles["leafOnly"] = write("leafonly.pem", validPEM) // the peer's own valid leaf: a certificate, but no CA
 	p.bundles["garbage"] = write("garbage.pem", []byte("this file holds no certificate\n"))
 	return p
+}
+
+// caseFiles gives the TLS files of a case and the step to run once the endpoint has started (before the peer dials).
+// For after = caRemoved the endpoint gets a per-case copy of the bundle (cases stay independent) and the step removes it.
+func (p *vtPKI) caseFiles(c vtCase) (vtFiles, func()) {
+	f := p.files(c.Cfg)
+	switch c.After {
+	case "", "intact":
+		return f, func() {}
+	case "caRemoved":
+		if f.CA == "" {
+			panic("after = caRemoved needs a CA bundle file")
+		}
+		data, err := os.ReadFile(f.CA)
+		vtMust(err)
+		f.CA = filepath.Join(p.dir, fmt.Sprintf("ca-case-%d-%s.pem", c.ID, c.Transport))
+		vtMust(os.WriteFile(f.CA, data, 0o600))
+		path := f.CA
+		return f, func() { // idempotent; afterwards the file is definitely gone
+			_ = os.Remove(path)
+			if _, err := os.Stat(path); err == nil {
+				panic("could not remove " + path)
+			}
+		}
+	}
+	panic("unknown after kind " + c.After)
 }
 
 func (p *vtPKI) files(c vtCfg) vtFiles {
@@ -371,6 +412,35 @@ func vtTLSEnd(c *tls.Conn, initiator bool) vtEnd {
 	return e
 }
 
+// vtPlainEnd is an end that does not speak TLS at all: the byte exchange directly on the TCP connection.
+func vtPlainEnd(c net.Conn, initiator bool) vtEnd {
+	var e vtEnd
+	var err error
+	if initiator {
+		// half-close after the byte: an end that expects a TLS record header (5 bytes) then sees EOF at once instead of
+		// waiting for more; an end that takes the byte as it is can still answer
+		_ = c.SetDeadline(time.Now().Add(vtIOTimeout))
+		if _, err = c.Write([]byte{'c'}); err == nil {
+			if hc, ok := c.(interface{ CloseWrite() error }); ok {
+				_ = hc.CloseWrite()
+			}
+			var b [1]byte
+			if _, err = io.ReadFull(c, b[:]); err == nil {
+				if e.Byte = b[0] == 's'; !e.Byte {
+					err = fmt.Errorf("unexpected byte %q", b[0])
+				}
+			}
+		}
+	} else {
+		e.Byte, err = vtAnswer(c)
+	}
+	e.Err, e.timedOut = vtErrStr(err), vtIsTimeout(err)
+	_ = c.Close()
+	return e
+}
+
+const vtPlaintext = "plaintext"
+
 // vtWait waits for ch with the generous bound; ok=false means the bound fired (harness trouble).
 func vtWait[T any](ch <-chan T) (T, bool) {
 	select {
@@ -462,7 +532,10 @@ func TestVerifTls(t *testing.T) {
 }
 
 func vtRunCase(p *vtPKI, c vtCase) (r vtRec) {
-	r = vtRec{Ev: "Case", ID: c.ID, Transport: c.Transport, Rep: c.Rep, Cfg: c.Cfg, Cred: c.Cred}
+	if c.After == "" {
+		c.After = "intact"
+	}
+	r = vtRec{Ev: "Case", ID: c.ID, Transport: c.Transport, Rep: c.Rep, Cfg: c.Cfg, Cred: c.Cred, After: c.After}
 	fn := vtTransports[c.Transport+"/"+c.Cfg.Role]
 	if fn == nil {
 		r.Note = "no such transport in this package: " + c.Transport + "/" + c.Cfg.Role
